@@ -132,7 +132,7 @@ class Harness:
         elif act[2] == "raw":
             # forward ready-made objects (set by Program.call(raw_site_args=...))
             pos = list(self.raw_args)[: site["npos"]]
-            kws = {}
+            kws = {n: (self.raw_kwargs or {}).get(n) for n in site.get("kws", [])}
         else:
             env = self.prog.env
             vals = [S.build_value(v, env) for v in act[2]]
@@ -199,7 +199,8 @@ def render_params(m, is_method, spelling=None):
 
 def render_site(m, k, site, is_method):
     pos = ", ".join(f"_a[1][{j}]" for j in range(site["npos"]))
-    kws = ", ".join(f"{n}=_a[2][{n!r}]" for n in site.get("kws", []))
+    # (keyword arguments may be written in any order at a call site)
+    kws = ", ".join(f"{n}=_a[2][{n!r}]" for n in (site.get("kws", [])[::-1] if site.get("kwrev") else site.get("kws", [])))
     if site.get("star") and site["fn"] in ("recurse", "call_next"):
         # a call whose shape is not known statically: starred / double-starred arguments
         pos = f"*_a[1][:{site['npos']}]"
@@ -364,9 +365,10 @@ class Program:
         if "_F" not in self.glb:
             self._bind()
 
-    def call(self, args, kwargs=None, script=None, via=None, raw_site_args=None):
+    def call(self, args, kwargs=None, script=None, via=None, raw_site_args=None, raw_site_kwargs=None):
         self.H.start(script)
         self.H.raw_args = raw_site_args
+        self.H.raw_kwargs = raw_site_kwargs
         f = via if via is not None else self.f
         return capture(f, *args, **(kwargs or {}))
 
